@@ -29,6 +29,12 @@ def gen_cases(tier, seed):
         sim = simreg.ALL_SIMS[k % len(simreg.ALL_SIMS)]
         c = simreg.random_sim_case(r, sim)
         c['full'] = (k // len(simreg.ALL_SIMS)) % 2 == 1
+        if sim not in simreg.GENERIC_SIMS and r.random() < 0.12:
+            # initial condition through rho (the documented alternative to initial_infecteds)
+            c['rho'] = r.choice([0.1, 0.3, 0.5, 0.8])
+            c['I0'] = None
+            c['R0'] = []
+            c.pop('R0_explicit_empty', None)
         if sim == 'Gillespie_simple_contagion' and r.random() < 0.15:
             c['alias'] = 'Gillespie_Arbitrary'      # the older public name of the same simulator
         if sim == 'Gillespie_simple_contagion' and r.random() < 0.3 and not c['full']:
